@@ -60,10 +60,23 @@ TRUTHY = [True, 1, 2, "yes", [0], (None,)]
 FALSY = [False, 0, "", [], None, ()]
 
 
+class Runaway(BaseException):
+    """The scenario produced far more observations than any bounded scenario can: an unbounded chain of events."""
+
+
 class Boom(Exception):
     def __init__(self, c):
         super().__init__(f"boom {c}")
         self.c = c
+
+
+# a failing callback may raise any kind of exception: the same failure under several built-in base classes
+BOOMS = [Boom] + [type(f"Boom{b.__name__}", (Boom, b), {})
+                  for b in (AttributeError, KeyError, ValueError, TypeError, LookupError, RuntimeError, OSError)]
+
+
+def boom(c):
+    return BOOMS[c % len(BOOMS)](c)
 
 
 class RetObj(list):
@@ -100,6 +113,9 @@ class Recorder:
         self.loops = set()
         self.notes = []
         self.sender = None  # C06: sender tag of the running thread/task
+        # "ctor_pre": inside a constructor before its first callback (attribute reads are the library resolving
+        # names), "registering": inside add_listener / copy, "live": attribute reads are guard evaluations
+        self.mode = "live"
 
     # -- values -------------------------------------------------------------------------
     def retval(self, slotkey, c, token):
@@ -132,6 +148,8 @@ class Recorder:
         if self.sender is not None:
             line["task"] = self.sender
         self.lines.append(line)
+        if len(self.lines) > self.scn.get("max_lines", 120000):
+            raise Runaway(f"more than {len(self.lines) - 1} trace lines")
 
     def view_of(self, machine):
         try:
@@ -140,8 +158,18 @@ class Recorder:
             v = getattr(machine.model, machine.state_field, None)
             return "none" if v is None else "invalid"
 
+    def begin_property(self, c, owner):
+        """A guard given as a property / attribute is being read (no injected arguments)."""
+        self.ninv += 1
+        self.emit({"e": "B", "i": self.cur_slot, "c": c, "inj": False, "view": "", "st": "", "src": "", "tgt": "", "evn": "",
+                   "nest": _depth.get(), "pyd": 0,
+                   "pslot": getattr(owner, "__dict__", {}).get("_vslot", 0) if owner is not None else 0})
+        return self.ninv
+
     def begin(self, c, machine, event, source, target, state, owner=None):
         self.ninv += 1
+        if self.mode == "ctor_pre":
+            self.mode = "live"
         try:
             self.loops.add(asyncio.get_running_loop())
         except RuntimeError:
@@ -158,6 +186,7 @@ class Recorder:
                 "e": "B",
                 "i": self.cur_slot,
                 "c": c,
+                "inj": True,
                 "view": self.view_of(machine),
                 "st": sid(state),
                 "src": sid(source),
@@ -219,13 +248,13 @@ def make_callback(rt, c, cb, slot_getter=None):
                 and not rt.gv.get(cb["gname"], True))
         if boom:
             rt.end(c, True)
-            raise Boom(c)
+            raise globals()["boom"](c)
         rt.end(c, False)
         if is_guard:
             # truthy / falsy values of any type, not just True / False (chosen by invocation number: deterministic)
             v = rt.gv.get(cb["gname"], False)
             return (TRUTHY if v else FALSY)[n % 6]
-        return rt.retval(id(machine.model), c, token)
+        return rt.retval(id(machine.model) if machine is not None else 0, c, token)
 
     if not coro:
 
@@ -289,6 +318,15 @@ def make_callback(rt, c, cb, slot_getter=None):
     for f in (method, function):
         f.__name__ = name
         f.__qualname__ = name
+    if cb.get("style") == "property":
+        def getter(self_):
+            if rt.mode != "live":
+                return True          # the library resolving the name, not a guard evaluation
+            n = rt.begin_property(c, self_)
+            rt.occ[c] = rt.occ.get(c, 0) + 1
+            return finish(n, None)
+        getter.__name__ = name
+        method = property(getter)
     return method, function
 
 
@@ -335,6 +373,10 @@ def normalize_def(d):
         cb.setdefault("ret", "none")
         cb.setdefault("owner", "")
         cb.setdefault("tix", 0)
+        cb.setdefault("evcb", "")
+        if cb["evcb"]:
+            cb["ret"] = "none"     # an event used as action returns what the (queued) send returns: None
+            cb["coro"] = False
         cb["name"] = cb_name(c, cb)
     d.setdefault("evstyle", "param")
     d.setdefault("strict", False)
@@ -383,30 +425,35 @@ class Built:
         funcs = {}
         for c, cb in enumerate(d["cbs"], start=1):
             method, function = make_callback(rt, c, cb)
-            if d.get("collide_qualnames"):
+            if d.get("collide_qualnames") and not isinstance(method, property):
                 method.__qualname__ = f"{clsname}.{cb['name']}"
                 function.__qualname__ = cb["name"]
             else:
                 # realistic qualified names: <owner class>.<method>; unique per built class so the
                 # library's process-global signature cache cannot mix up unrelated scenarios
                 owner = clsname if cb["prov"] == "sm" else f"P_{cb['prov']}_{_class_counter[0]}"
-                method.__qualname__ = f"{owner}.{cb['name']}"
+                if not isinstance(method, property):
+                    method.__qualname__ = f"{owner}.{cb['name']}"
                 function.__qualname__ = f"mod_{_class_counter[0]}.{cb['name']}"
             funcs[c] = (method, function)
             style = cb["style"]
-            if style in ("name", "convention"):
+            if style == "event":
+                continue
+            if style in ("name", "convention", "property"):
                 by_prov.setdefault(cb["prov"], {})[cb["name"]] = method
             elif style in ("method", "decorator"):
                 by_prov.setdefault("sm", {})[cb["name"]] = method
         self.provider_methods = by_prov
         self.provider_functions = {p: {cb["name"]: funcs[c][1] for c, cb in enumerate(d["cbs"], start=1)
-                                       if cb["prov"] == p and cb["style"] in ("name", "convention")}
+                                       if cb["prov"] == p and cb["style"] in ("name", "convention") and c in funcs}
                                    for p in by_prov}
 
         def ref(c, cb):
             style = cb["style"]
-            if style == "name":
+            if style in ("name", "property"):
                 return cb["name"]
+            if style == "event":
+                return cb["evcb"]        # an event of the machine used as an action
             if style == "callable":
                 return funcs[c][1]
             if style == "method":
@@ -451,13 +498,13 @@ class Built:
             ]
             for g in ("validators", "before", "on", "after"):
                 refs = [ref(c, cb) for c, cb in mine
-                        if cb["group"] == g and cb["style"] in ("name", "callable", "method")]
+                        if cb["group"] == g and cb["style"] in ("name", "callable", "method", "event")]
                 if refs:
                     kw[g] = refs if len(refs) > 1 else refs[0]
             conds = [ref(c, cb) for c, cb in mine if cb["group"] == "cond" and cb["expected"]
-                     and cb["style"] in ("name", "callable", "method")]
+                     and cb["style"] in ("name", "callable", "method", "property")]
             unless = [ref(c, cb) for c, cb in mine if cb["group"] == "cond" and not cb["expected"]
-                      and cb["style"] in ("name", "callable", "method")]
+                      and cb["style"] in ("name", "callable", "method", "property")]
             if conds:
                 kw["cond"] = conds if len(conds) > 1 else conds[0]
             if unless:
@@ -642,6 +689,8 @@ class Runner:
     def exc_rec(self, k, e):
         if isinstance(e, Boom):
             return {"kind": "Boom", "ev": "", "st": "", "c": e.c}
+        if isinstance(e, KeyError) and e.args and isinstance(e.args[0], Boom):
+            return {"kind": "Boom", "ev": "", "st": "", "c": e.args[0].c}
         if isinstance(e, TransitionNotAllowed):
             return {"kind": "TNA", "ev": str(e.event), "st": e.state.id, "c": 0}
         if isinstance(e, InvalidStateValue):
@@ -700,6 +749,7 @@ class Runner:
             kw["state_field"] = state_field
         self.cls_of[i] = k
         self.sm.pop(i, None)
+        self.rt.mode = "ctor_pre"
         try:
             if step.get("mixin"):
                 from statemachine.mixins import MachineMixin
@@ -722,8 +772,10 @@ class Runner:
                 sm = b.cls(model, rtc=opt["rtc"], allow_event_without_transition=opt["allow"],
                            listeners=list(lst.values()) or None, **kw)
         except Exception as e:  # noqa: BLE001
+            self.rt.mode = "live"
             self.ret_line(i, ("exc", e))
             return
+        self.rt.mode = "live"
         self.sm[i] = sm
         self.models[i] = sm.model
         self.listeners[i] = lst
@@ -792,8 +844,9 @@ class Runner:
         if "ev" in step:
             step = dict(step, ev=self.resolve_name(sm, step["ev"]))
         self.rt.cur_slot = i
-        line = {"e": "call", "i": i, "api": api, "ev": step.get("ev", ""), "v": step.get("v", ""),
-                "j": step.get("j", 0)}
+        line = {"e": "call", "i": i, "api": api, "ev": step.get("ev", ""),
+                "v": step.get("v", "") if not isinstance(step.get("v"), list) else "",
+                "vs": step["v"] if isinstance(step.get("v"), list) else [step.get("v", "")], "j": step.get("j", 0)}
         if api in ("send", "event", "events_item", "allowed_item", "bound", "activate", "mixin_bound"):
             line["gv"] = self.set_gv(step)
             self.rt.budget = step.get("budget", self.scn.get("budget", 0))
@@ -819,18 +872,28 @@ class Runner:
                 setattr(sm.model, sm.state_field, self.value_of(k, step["v"]))
                 r = None
             elif api == "add_listener":
-                p = step["v"]
-                obj = self.listeners[i].get(p) or self.built[k - 1].make_provider(
-                    p, slot=i, kind="bag" if self.scn.get("bag_providers") else "attr")
-                self.listeners[i][p] = obj
-                sm.add_listener(obj)
+                objs = []
+                for p in (step["v"] if isinstance(step["v"], list) else [step["v"]]):
+                    obj = self.listeners[i].get(p) or self.built[k - 1].make_provider(
+                        p, slot=i, kind="bag" if self.scn.get("bag_providers") else "attr")
+                    self.listeners[i][p] = obj
+                    objs.append(obj)
+                self.rt.mode = "registering"
+                try:
+                    sm.add_listener(*objs)      # one call, possibly several listeners
+                finally:
+                    self.rt.mode = "live"
                 r = None
             elif api == "copy":
                 j = step["j"]
-                if step.get("how", "deepcopy") == "deepcopy":
-                    clone = copy.deepcopy(sm)
-                else:
-                    clone = pickle.loads(pickle.dumps(sm))
+                self.rt.mode = "registering"
+                try:
+                    if step.get("how", "deepcopy") == "deepcopy":
+                        clone = copy.deepcopy(sm)
+                    else:
+                        clone = pickle.loads(pickle.dumps(sm))
+                finally:
+                    self.rt.mode = "live"
                 if clone.model is sm.model and step.get("model_shared_ok") is None:
                     self.rt.notes.append({"kind": "clone_shares_model", "i": i, "j": j})
                 try:   # tag the copied provider objects with the clone's slot
@@ -973,7 +1036,7 @@ def spec_classes(scn):
             "initial": d["initial"],
             "cbs": [{"okind": cb["okind"], "owner": cb["owner"], "tix": cb["tix"], "group": cb["group"],
                      "prov": cb["prov"], "coro": cb["coro"], "gname": cb["gname"],
-                     "expected": cb["expected"], "ret": cb["ret"]} for cb in d["cbs"]],
+                     "expected": cb["expected"], "ret": cb["ret"], "evcb": cb.get("evcb", "")} for cb in d["cbs"]],
         })
     return out
 
